@@ -19,8 +19,12 @@ SHRINK_KEY = ["ops", "edges"]
 RULE = (
     "three case kinds. kind=unit: a webpage-unavailable / green-admin-database-unreachable component (sticky or not) "
     "fed every sequence up to length 3 (thorough: 4) over {no own request, own execute request answered success / "
-    "failure / unreachable / pending} with the state a simulation shows in that situation; non-trivial = contains an "
-    "unreachable or pending answer. kind=graph: a digraph of shared-reward dependencies (edge i->j: agent i has a shared-reward "
+    "failure / unreachable / pending} with the state a simulation shows in that situation; database-file-integrity fed "
+    "every file situation (six FileSystemItemHealthStatus values, file absent) alone and in ordered pairs; "
+    "web-server-404-penalty (sticky or not) fed every multiset of <=2 (thorough <=3) HTTP status codes per step over "
+    "{200,400,401,404,405,500} (or none) in every sequence of <=2 steps; action-penalty for every penalty pair; dummy. "
+    "Non-trivial unit case = contains an unreachable/pending answer, a file status other than GOOD/COMPROMISED, or a "
+    "mixed / non-200-404 code list. kind=graph: a digraph of shared-reward dependencies (edge i->j: agent i has a shared-reward "
     "component naming agent j; self-loops allowed) over n scripted do-nothing agents on an empty network, declared in a "
     "given order; enumerated exhaustively (all digraphs incl. self-loops on <=3 agents under all declaration orders; "
     "thorough adds all 4096 loop-free digraphs on 4 agents under 8 of the 24 orders each plus every one of them with "
@@ -47,6 +51,11 @@ ASSUMPTIONS = [
     "positive (positive only on success)); without an event sticky keeps the last "
     "value and non-sticky returns 0; with the sticky flag omitted only event steps are checked; while the watched "
     "application is not installed a sticky webpage-unavailable-penalty may keep its value or drop to 0 (docs silent)",
+    "database-file-integrity reference: GOOD -> +1, COMPROMISED -> -1 (docstring, UC7 notebook, unit scale of all shipped "
+    "components); NONE / CORRUPT / RESTORING / REPAIRING / file not in the state -> not positive (no document names a "
+    "value, the code returns 0); at run time the file's status is read from a fresh post-step describe_state()",
+    "no shipped reward component reads a SoftwareHealthState or a node/service operating state, so there is nothing "
+    "to enumerate for those",
     "`pending` cannot be produced for an application execute request by the simulator (its handlers answer through "
     "RequestResponse.from_bool), so that status is exercised at component level only (kind=unit)",
     "the metamorphic relation is asserted only for 'iso' cases, in which every agent's actions touch only its own client "
@@ -189,6 +198,35 @@ class _Recorder:
 
 
 STATUSES = ["success", "failure", "unreachable", "pending"]
+FILE_HEALTH = {"NONE": 0, "GOOD": 1, "COMPROMISED": 2, "CORRUPT": 3, "RESTORING": 4, "REPAIRING": 5}
+FILE_SITUATIONS = list(FILE_HEALTH) + ["ABSENT"]
+HTTP_CODES = [200, 400, 401, 404, 405, 500]
+
+
+def file_integrity_ref(situation: str):
+    """database-file-integrity (docstring: 'rewards the agent for maintaining the integrity of a database file';
+    UC7 notebook: 'negative reward when the database.db file ... enters into a COMPROMISED state'; unit scale +-1 as every
+    shipped component): GOOD -> +1, COMPROMISED -> -1, every other status (NONE, CORRUPT, RESTORING, REPAIRING) and a file
+    that is not in the state -> not positive (no document gives these a value; the code returns 0)."""
+    if situation == "GOOD":
+        return (lambda v: v == 1), "1"
+    if situation == "COMPROMISED":
+        return (lambda v: v == -1), "-1"
+    return (lambda v: v <= 0), "<= 0 (not positive)"
+
+
+def codes_ref(codes: List[int]) -> float:
+    return sum(1.0 if c == 200 else -1.0 if c == 404 else 0.0 for c in codes) / len(codes)
+
+
+def file_situation(state: Dict, host: str, folder: str, fname: str) -> str:
+    """Own traversal of a describe_state() tree."""
+    try:
+        f = state["network"]["nodes"][host]["file_system"]["folders"][folder]["files"][fname]
+    except (KeyError, TypeError):
+        return "ABSENT"
+    inv = {v: k for k, v in FILE_HEALTH.items()}
+    return inv.get(f.get("health_status"), "ABSENT")
 
 
 def action_component_ref(status: Optional[str], sticky: Optional[bool], mem: float, app_absent: bool, absent_resets: bool):
@@ -360,10 +398,16 @@ def play(case: Dict, order: List[int], res: CaseResult, tag: str = "") -> Option
                         if v != v2:
                             viol("component-not-post-step:database-file-integrity",
                                         f"{when}: {nm}#{ci} returned {v!r}, the post-step state gives {v2!r}")
+                        sit = file_situation(fresh_state, S.DB, S.DB_FOLDER, cc.get("file", S.DB_FILE))
+                        stats["file:" + sit] = stats.get("file:" + sit, 0) + 1
+                        okf, exp_txt = file_integrity_ref(sit)
+                        if not okf(v):
+                            viol(f"component-value:database-file-integrity:{sit}",
+                                 f"{when}: {nm}#{ci} watched file is {sit} after the step: returned {v!r}, reference {exp_txt}")
                     elif t == "web-server-404-penalty":
                         key = (nm, ci)
                         if codes:
-                            exp = sum(1.0 if c == 200 else -1.0 if c == 404 else 0.0 for c in codes) / len(codes)
+                            exp = codes_ref(codes)
                             ev = "event"
                             stats["events"] += 1
                         elif sticky is None:
@@ -463,6 +507,9 @@ def run_run(case: Dict) -> CaseResult:
     for st_ in STATUSES:
         if stt.get("status:" + st_):
             res.label("run:own-execute-" + st_)
+    for sit in FILE_SITUATIONS:
+        if stt.get("file:" + sit):
+            res.label("run:watched-file-" + sit)
     if case.get("iso") and case.get("order2"):
         order2 = list(case["order2"])
         res2 = CaseResult()
@@ -503,7 +550,9 @@ def run_unit(case: Dict) -> CaseResult:
     from primaite.interface.request import RequestResponse
 
     res = CaseResult()
-    t, sticky, host = case["type"], case["sticky"], "c0"
+    t, sticky, host = case["type"], case.get("sticky"), "c0"
+    if t in ("database-file-integrity", "web-server-404-penalty", "action-penalty", "dummy"):
+        return run_unit_state(case, res)
     app = "web-browser" if t == "webpage-unavailable-penalty" else "database-client"
     skey = "sticky" if sticky else "nonsticky"
     cls = AbstractReward._registry[t]
@@ -520,7 +569,10 @@ def run_unit(case: Dict) -> CaseResult:
         if status == "success":
             hist.append({"url": "u", "outcome": 200})
         elif status == "failure":
-            hist.append({"url": "u", "outcome": 404})
+            # what a failed fetch leaves behind varies: an error page, an unreachable server, or nothing at all
+            out = [404, 500, "SERVER_UNREACHABLE", None][i % 4]
+            if out is not None:
+                hist.append({"url": "u", "outcome": out})
         elif status == "pending":
             hist.append({"url": "u", "outcome": "PENDING"})
         elif absent:
@@ -552,7 +604,104 @@ def run_unit(case: Dict) -> CaseResult:
     return res
 
 
+def run_unit_state(case: Dict, res: CaseResult) -> CaseResult:
+    """Components that read the simulation state (or only the action name): every value of what they read.
+
+    database-file-integrity: ops = file situations (all six FileSystemItemHealthStatus values, ABSENT);
+    web-server-404-penalty: ops = lists of HTTP codes the web server answered with in that step ([] = none);
+    action-penalty: ops = action names; dummy: ops = anything."""
+    from primaite.game.agent.interface import AgentHistoryItem
+    from primaite.game.agent.rewards import AbstractReward
+    from primaite.interface.request import RequestResponse
+
+    t, sticky, host = case["type"], case.get("sticky"), "srv"
+    cls = AbstractReward._registry[t]
+    idle = AgentHistoryItem(timestep=0, action="do-nothing", parameters={}, request=["do-nothing"],
+                            response=RequestResponse(status="success", data={}))
+    try:
+        if t == "database-file-integrity":
+            comp = cls(config=cls.ConfigSchema(node_hostname=host, folder_name="database", file_name="database.db"))
+        elif t == "web-server-404-penalty":
+            comp = cls(config=cls.ConfigSchema(node_hostname=host, service_name="web-server", sticky=sticky))
+        elif t == "action-penalty":
+            comp = cls(config=cls.ConfigSchema(action_penalty=case["ap"], do_nothing_penalty=case["dn"]))
+        else:
+            comp = cls(config=cls.ConfigSchema())
+    except Exception as e:
+        res.violate(f"raise:unit-build:{exc_sig(e)}", exc_msg(e))
+        return res
+    mem = 0.0
+    skey = "sticky" if sticky else "nonsticky"
+    for i, op in enumerate(case["ops"]):
+        item = idle
+        if t == "database-file-integrity":
+            files = {} if op == "ABSENT" else {"database.db": {"health_status": FILE_HEALTH[op], "visible_status": 0}}
+            state = {"network": {"nodes": {host: {"file_system": {"folders": {"database": {"files": files}}}}}}}
+        elif t == "web-server-404-penalty":
+            state = {"network": {"nodes": {host: {"services": {"web-server": {"response_codes_this_timestep": list(op)}}}}}}
+        else:
+            state = {"network": {"nodes": {}}}
+            if t == "action-penalty":
+                item = AgentHistoryItem(timestep=i, action=op, parameters={}, request=[op],
+                                        response=RequestResponse(status="success", data={}))
+        try:
+            v = comp.calculate(state, item)
+        except Exception as e:
+            res.violate(f"raise:unit:{t}:{exc_sig(e)}", f"op#{i} {op}: {exc_msg(e)}")
+            break
+        if t == "database-file-integrity":
+            okf, exp_txt = file_integrity_ref(op)
+            if not okf(v):
+                res.violate(f"component-value:database-file-integrity:{op}", f"unit ops={case['ops']} op#{i}: returned {v!r}, reference {exp_txt}")
+                break
+        elif t == "web-server-404-penalty":
+            if op:
+                exp, ev = codes_ref(op), "event"
+            else:
+                exp, ev = (mem if sticky else 0.0), "noevent"
+            if not _close(v, exp):
+                res.violate(f"sticky-model:{t}:{skey}:{ev}", f"unit ops={case['ops']} op#{i} codes={op}: returned {v!r}, reference {exp!r}")
+                break
+            mem = exp
+        elif t == "action-penalty":
+            exp = case["dn"] if op == "do-nothing" else case["ap"]
+            if not _close(v, exp):
+                res.violate("component-value:action-penalty", f"unit op#{i} action {op}: {v!r} != {exp!r}")
+                break
+        elif v != 0:
+            res.violate("component-value:dummy", f"unit op#{i}: dummy returned {v!r}")
+            break
+    res.label("unit:" + t)
+    if t == "database-file-integrity":
+        res.nontrivial = ("u", t, tuple(case["ops"])) if any(o not in ("GOOD", "COMPROMISED") for o in case["ops"]) else False
+    elif t == "web-server-404-penalty":
+        mixed = any(len(set(o)) > 1 for o in case["ops"])
+        if mixed:
+            res.label("unit:404-mixed-codes")
+        res.nontrivial = ("u", t, sticky, json_key(case["ops"])) if mixed or any(c not in (200, 404) for o in case["ops"] for c in o) else False
+    return res
+
+
+def json_key(x):
+    return tuple(tuple(o) if isinstance(o, list) else o for o in x)
+
+
 def unit_cases(tier: str):
+    q = tier == "quick"
+    # database-file-integrity: every file situation, alone and in every ordered pair (the component must be stateless)
+    for depth in (1, 2):
+        for ops in itertools.product(FILE_SITUATIONS, repeat=depth):
+            yield {"kind": "unit", "type": "database-file-integrity", "ops": list(ops)}
+    # web-server-404-penalty: every multiset of <=2 (thorough <=3) codes per step, every sequence of <=2 steps
+    per_step = [[]] + [list(c) for k in range(1, 3 if q else 4) for c in itertools.combinations_with_replacement(HTTP_CODES, k)]
+    for sticky in (True, False):
+        for depth in (1, 2):
+            for ops in itertools.product(per_step, repeat=depth):
+                yield {"kind": "unit", "type": "web-server-404-penalty", "sticky": sticky, "ops": [list(o) for o in ops]}
+    for ap, dn in itertools.product(PENS, PENS):
+        yield {"kind": "unit", "type": "action-penalty", "ap": ap, "dn": dn,
+               "ops": ["do-nothing", "node-application-execute", "do-nothing", "node-file-scan"]}
+    yield {"kind": "unit", "type": "dummy", "ops": ["x", "y"]}
     alphabet = ["none"] + STATUSES
     for t in ("green-admin-database-unreachable-penalty", "webpage-unavailable-penalty"):
         for sticky in (True, False):
@@ -625,6 +774,8 @@ def run_case_strategy(draw, max_ops: int = 30):
     order = list(draw(st.permutations(list(range(n)))))
     order2 = list(draw(st.permutations(list(range(n))))) if iso else None
     blue_pool = OWN_BIAS if iso else OWN_BIAS + list(range(S.OWN_ACTIONS, S.OWN_ACTIONS + len(S.blue_extra_actions()))) * 2
+    if not iso:  # corrupt / repair of the watched database file: six more shares each (a deleted file stays absent)
+        blue_pool = blue_pool + [S.OWN_ACTIONS + 4, S.OWN_ACTIONS + 5] * 6
     acts = st.tuples(st.sampled_from(blue_pool), *[st.sampled_from(OWN_BIAS)] * (n - 1)).map(list)
     # one op in 12 is a reset (a selector, because st.one_of collapses repeated identical branches)
     op = st.tuples(st.integers(0, 11), acts).map(lambda t: ["reset"] if t[0] == 0 else ["step", t[1]])
@@ -684,7 +835,9 @@ def worker(ctx: Ctx):
     enum_run(ctx, graph_cases(ctx.tier), run_case)
     ctx.extra["exhaustive"] = True
     ctx.extra["exhaustive_domain"] = (
-        f"unit: 2 components x sticky/non-sticky x all sequences up to length {3 if q else 4} over 5 per-step situations; "
+        f"unit: 2 action-triggered components x sticky/non-sticky x all sequences up to length {3 if q else 4} over 5 "
+        "per-step situations, file-integrity x 7 file situations (singles and ordered pairs), 404-penalty x sticky/non-sticky x "
+        f"all code multisets of size <={2 if q else 3} over 6 codes in sequences of <=2 steps, action-penalty x 25 penalty pairs; "
         "sharing digraphs incl. self-loops on 1..3 agents x all declaration orders (2 + 32 + 3072 games)"
         + ("" if q else "; all 4096 loop-free digraphs on 4 agents x 8 of 24 declaration orders + each with one self-loop (36864 games)")
     )
